@@ -1,4 +1,6 @@
 import LimnoriaModel.C05.Model
+import LimnoriaModel.C05.Full
+import LimnoriaModel.C05.WFDec
 import LimnoriaModel.Driver.Core
 namespace C05
 open Py Wire
@@ -21,16 +23,31 @@ def drive : List String → String
     match dec l with
     | none => "bad-op"
     | some s =>
-      match parse (fun _ => true) s with
+      match parseFull (fun _ => true) s with
       | .malformed => "malformed"
       | .crash e => "crash\t" ++ e
-      | .ok m str =>
+      | .ok m str n u h =>
         "ok\t" ++ enc m.pfx ++ "\t" ++ enc m.command ++ "\t" ++ encList m.args ++ "\t" ++
-          encTags m.tags ++ "\t" ++ enc str ++ "\t" ++ encOpt (parseNeedsTime s)
+          encTags m.tags ++ "\t" ++ enc str ++ "\t" ++ enc n ++ "\t" ++ enc u ++ "\t" ++ enc h ++
+          "\t" ++ encOpt (parseNeedsTime s)
   | ["format", p, c, a, t] =>
     match dec p, dec c, decList a, decTags t with
     | some p, some c, some a, some t => enc (format ⟨p, c, a, t⟩)
     | _, _, _, _ => "bad-op"
+  | ["wf", p, c, a, t] =>
+    match dec p, dec c, decList a, decTags t with
+    | some p, some c, some a, some t =>
+      let m : Msg := ⟨p, c, a, t⟩
+      (if decide (WFD (fun _ => true) m) then "1" else "0") ++ "\t" ++
+        encOpt (match dictGet t timeKey with | some (some v) => some v | _ => none)
+    | _, _, _, _ => "bad-op"
+  | ["hostmask", p] =>
+    (match dec p with
+     | some p => (if isUserHostmask p then "1" else "0") ++ "\t" ++
+        (match hostFields p with
+         | some (n, u, h) => enc n ++ "\t" ++ enc u ++ "\t" ++ enc h
+         | none => "crash")
+     | none => "bad-op")
   | ["esc", v] => (match dec v with | some v => enc (escapeTag v) | none => "bad-op")
   | ["unesc", v] => (match dec v with | some v => enc (unescapeTag v) | none => "bad-op")
   | _ => "bad-op"
